@@ -164,18 +164,48 @@ func runC05(c *Ctx) {
 		r := c.Rng("layout", i)
 		o := JGenOpts{MaxAccounts: r.Range(2, 6), MaxDays: r.Range(1, 5), Unicode: true, BaseDay: 737000 + r.Intn(1500), SpanDays: Pick(r, []int{0, 3, 30, 200}),
 			Mutate: r.Chance(1, 5)}
-		if r.Chance(1, 3) {
+		if r.Chance(1, 2) {
 			o.Prices, o.Valuation = true, "CHF"
+			o.PricesFirstDayOnly = r.Chance(1, 2)
 		}
 		j, tags := GenJournal(r, o)
 		f := GenBalFlags(r, j, o.Valuation, BalGenOpts{Valued: true})
+		if r.Chance(1, 2) {
+			f.To = 0 // the report end then comes from the journal period
+		}
 		k := &cs{idx: i, j: j, f: f, tags: tags}
 		for v := 0; v < nvar; v++ {
 			order := make([]int, len(j.Dirs))
 			for q := range order {
 				order[q] = q
 			}
-			if v > 0 { // variant 0 keeps the original order in a single file
+			switch {
+			case v == 0: // the original order in a single file
+			case v == 1: // newest first (reverse chronological)
+				for a, b := 0, len(order)-1; a < b; a, b = a+1, b-1 {
+					order[a], order[b] = order[b], order[a]
+				}
+			case v == 2: // grouped by kind: prices, then transactions newest first, then the rest
+				rank := func(q int) int {
+					switch j.Dirs[q].Kind {
+					case 'p':
+						return 0
+					case 't':
+						return 1
+					}
+					return 2
+				}
+				sort.SliceStable(order, func(a, b int) bool {
+					ra, rb := rank(order[a]), rank(order[b])
+					if ra != rb {
+						return ra < rb
+					}
+					if ra == 1 {
+						return j.Dirs[order[a]].Date > j.Dirs[order[b]].Date
+					}
+					return false
+				})
+			default:
 				for q := len(order) - 1; q > 0; q-- {
 					w := r.Intn(q + 1)
 					order[q], order[w] = order[w], order[q]
@@ -183,8 +213,11 @@ func runC05(c *Ctx) {
 			}
 			vr := &c05Variant{Order: order, Seed: r.Intn(1000) + 1}
 			dir := filepath.Join(base, fmt.Sprintf("c%d/v%d", i, v))
-			if v == 0 {
-				jj := &Journal{Dirs: j.Dirs}
+			if v <= 2 && (v == 0 || r.Chance(1, 2)) {
+				jj := &Journal{}
+				for _, q := range order {
+					jj.Dirs = append(jj.Dirs, j.Dirs[q])
+				}
 				text, _ := jj.Text()
 				os.MkdirAll(dir, 0o755)
 				vr.Root = filepath.Join(dir, "main.knut")
